@@ -538,7 +538,10 @@ def oracle_c16(line, m, impl, model):
             pb = ANSI.sub(b"", blocks[idx + 1])
             if idx == len(items) - 1 and pb.endswith(b"\n"):
                 pb = pb[:-1]
-            if pb != blk:
+            if pb != blk and b"\r\n" not in s:
+                # (CR LF sources are outside C16's quantifier: the pretty form drops the CR of a CR LF line end, the
+                # JSON block keeps it - observation in DESIGN.md section 8; C16_json_block_is_uncoloured_pretty
+                # carries the hypothesis "no CR")
                 return f"JSON code block of item {idx} differs from the pretty form without colours"
             if m.get("mutated") or m.get("stream") == "exhaustive" or idx >= len(marks) or not dom:
                 continue
@@ -619,6 +622,35 @@ def chrono_limit_docs(prefix="cl"):
                 k += 1
                 cases.append(G.dcase(cid, ds, de, src, G.Cfg(offset=off, now=G.NOW)))
                 meta[cid] = {"stream": "chrono-limits", "mutated": True}
+    return cases, meta
+
+
+def weird_tag_cases(rng, n, prefix="wtag"):
+    """elements whose tags use rare spellings: separators other than space / line break (TAB, CR LF, NBSP,
+    U+3000), unquoted and empty values, duplicate and upper-case attributes, quotes inside values, backslashes,
+    control characters, names with slashes / CR / multi-byte characters; CR LF documents.  No expectation:
+    the model must agree with the implementation on every stage (and the universal oracles apply)."""
+    cases, meta = [], {}
+    e, f = G.EXPIRED, G.FUTURE
+    seps = [" ", " ", "\n", "\t", "\r\n", "\u00a0", "\u3000", "  ", "\n\t", " \r\n "]
+    attrs = [e, f, 'name="x"', "name='x'", "name=x", "name=", "name", 'name="x"x', "skip", "SKIP", "skip=''", "unwrap-block", 'unwrap-block="1"',
+             "to", "to=2000-01-01", 'to="2000-01-01 00:00:00"', "to='2000-01-01 00:00:00'", 'c="it\'s"', "c='say \"hi\"'", 'c="a\\"', "c='\\'",
+             'c="x', "c='y", '"', "'", "=", "==", 'a="1"b="2"', "é='ü'", "\x01", "\x7f", 'c="\t"', "/", "//", 'to ="2000-01-01 00:00:00"',
+             'to= "2000-01-01 00:00:00"', 'name = "x"']
+    names = ["tl", "rm", "tl", "rm", "TL", "tl\r", "/tl", "//tl", "tl/", "t l", "期限", "tl\u00a0", "", "t\tl"]
+    for i in range(n):
+        ds, de = rng.choice(G.DELIMS[:10])
+        nm = rng.choice(names)
+        body = nm + "".join(rng.choice(seps) + rng.choice(attrs) for _ in range(rng.randint(0, 4)))
+        closer = rng.choice(["/" + nm, "/" + nm.strip(), "/tl", "/rm", "/" + nm + "\r", "//" + nm])
+        inner = rng.choice(["x", "\nx\n", "\n{\n  y\n}\n", ""])
+        pre = rng.choice(["a ", "a\n", "", "  "])
+        src = pre + ds + rng.choice(["", " "]) + body + rng.choice(["", " ", "\n"]) + de + inner + ds + closer + de + rng.choice([" b", "\nb\n", ""])
+        if rng.random() < 0.25:
+            src = src.replace("\n", "\r\n")
+        cid = f"{prefix}{i}"
+        cases.append(G.dcase(cid, ds, de, src, G.Cfg("tl", "rm", rng.choice(["+00:00", "-05:30"]), G.NOW, ("x",))))
+        meta[cid] = {"stream": "weird-tags", "mutated": True, "strict": False}
     return cases, meta
 
 
@@ -811,7 +843,7 @@ def gen_front(rng, tier, pairs=None, exh_len=None):
         s = "".join(rng.choice(pool) for _ in range(rng.randint(1, 14)))
         bc.append(G.dcase(f"u{i}", ds, de, s, G.Cfg()))
         bm[f"u{i}"] = {"stream": "unicode-boundaries", "mutated": True}
-    return merge(corpus_cases(), ex, (ex2c, ex2m), docs, (bc, bm), chrono_limit_docs())
+    return merge(corpus_cases(), ex, (ex2c, ex2m), docs, (bc, bm), chrono_limit_docs(), weird_tag_cases(rng, 400 if tier == "quick" else 6000))
 
 
 def gen_docs(rng, tier, n_quick=2500, n_thorough=40000, **kw):
@@ -819,7 +851,8 @@ def gen_docs(rng, tier, n_quick=2500, n_thorough=40000, **kw):
     ex = exhaustive_cases(rng, "x", [("<", ">"), ("|", "|")], 3 if tier == "quick" else 4)
     return merge(corpus_cases(), ex, doc_cases(rng, n, "d", **kw), wrapper_tag_cases(rng, 300 if tier == "quick" else 3000, "wtg"),
                  many_comment_cases(rng, 12 if tier == "quick" else 200),
-                 control_char_cases(rng, 60 if tier == "quick" else 1000))
+                 control_char_cases(rng, 60 if tier == "quick" else 1000),
+                 weird_tag_cases(rng, 400 if tier == "quick" else 6000))
 
 
 TAG_VALUES = ["", "v", "a b", "x=y", "it's", 'say "hi"', "skip", "unwrap-block", "a\nb", "<", "/* <", "to", "あ", "  ", "name=x skip",
